@@ -124,6 +124,31 @@ class Reader:
     def key(a):
         return tuple(sorted(a.items(), key=str))
 
+    def _direct_access(self, op):
+        """the slice access whose result (through reborrows / copies only) IS the operand"""
+        if op.place is None:
+            return None
+        cur = op.place.local
+        seen = set()
+        dests = {acc["dest"]: acc for acc in self.accesses.values() if acc.get("dest") is not None}
+        while cur is not None and cur not in seen:
+            seen.add(cur)
+            if cur in dests:
+                return dests[cur]
+            ds = self.pv.defs(self.body).get(cur, [])
+            if len(ds) != 1 or ds[0][0] != "assign":
+                return None
+            rv = ds[0][2].rv
+            if rv["k"] == "use" and rv["op"].place is not None:
+                cur = rv["op"].place.local
+            elif rv["k"] == "ref":
+                cur = rv["place"].local
+            elif rv["k"] == "cast" and rv["op"].place is not None:
+                cur = rv["op"].place.local
+            else:
+                return None
+        return None
+
     def _consecutive(self, ops, pos):
         offs = [affine(self._index_expr(o, pos)) for o in ops]
         if any(o is None for o in offs):
@@ -173,11 +198,9 @@ class Reader:
                 return None
             r = t.callee.res or t.callee.name or ""
             if r.endswith("u32_from_bytes") and len(t.args) == 1:
-                for a in self.pv.of_operand(body, t.args[0]):
-                    if a[0] == "call" and a[3] == body.id and a[4] in self.by_call_bb:
-                        acc = self.by_call_bb[a[4]]
-                        if acc["lo"] is not None:
-                            return self._sym("u32", acc["lo"], 4)
+                acc = self._direct_access(t.args[0])
+                if acc is not None and acc["lo"] is not None:
+                    return self._sym("u32", acc["lo"], 4)
                 return None
             if t.callee.method == "from_be_bytes" and len(t.args) == 1 and t.args[0].place is not None:
                 for kind2, pos, d in self.pv.defs(body).get(t.args[0].place.local, []):
@@ -311,3 +334,352 @@ def check_field_independence(ck, rule, prog, body, owner_rx, label):
                   where=body.where(st.line))
         n += 1
     return n
+
+
+# ------------------------------------------------------------------------------------------------ writer side
+
+INT_WIDTH = {"u8": 1, "i8": 1, "u16": 2, "i16": 2, "u32": 4, "i32": 4, "u64": 8, "i64": 8, "usize": 8}
+
+
+class Writer:
+    """the byte segments a record encoder appends to its output vector, in order:
+    list of dict(width (expr), value (expr | None), fields (record fields the value derives from), line, cond)"""
+
+    def __init__(self, prog, body, owner_rx):
+        self.prog = prog
+        self.body = body
+        self.owner_rx = owner_rx
+        self.pv = Prov(prog, inline=False, mutflow=False)
+        self.pvf = Prov(prog, inline=False)
+        self.len_local = None  # the local holding the (possibly truncated) name length
+        self.ex = Extract(prog, self.pv, self._leaf)
+        self.problems = []
+        self.out = self._out_local()
+        self.segments = []
+        if self.out is None:
+            self.problems.append("output vector not recognised")
+            return
+        self._collect()
+
+    # -- helpers
+    def _out_local(self):
+        for kind, pos, d in self.pv.defs(self.body).get(0, []):
+            if kind == "assign" and d.rv["k"] == "use" and d.rv["op"].place is not None and d.rv["op"].place.is_local():
+                return d.rv["op"].place.local
+        return None
+
+    def _is_out_ref(self, op):
+        if op.place is None or not op.place.is_local():
+            return False
+        for kind, pos, d in self.pv.defs(self.body).get(op.place.local, []):
+            if kind == "assign" and d.rv["k"] == "ref" and d.rv["place"].local == self.out and not [e for e in d.rv["place"].fields() if e != "*"]:
+                return True
+        return False
+
+    def _leaf(self, ex, body, kind, obj):
+        if body is not self.body:
+            return None
+        if kind == "phi" and obj == self.len_local:
+            return S("N")
+        if kind == "call":
+            t = obj
+            r = t.callee.res or t.callee.name or ""
+            if t.callee.method == "len" and len(t.args) == 1:
+                fl = self._fields(self.pvf.of_operand(body, t.args[0]))
+                if fl:
+                    return S("|%s|" % "/".join(sorted(fl)))
+                return None
+        if kind == "param":
+            return None
+        return None
+
+    def _fields(self, atoms):
+        out = set()
+        for a in atoms:
+            if a[0] == "field" and re.search(self.owner_rx, a[1]):
+                out.add(a[2])
+            if a[0] == "param" and a[2] == 1:
+                for e in a[-1]:
+                    if e[0] == "f" and re.search(self.owner_rx, e[2] or ""):
+                        out.add(e[1])
+            if a[0] == "call" and a[3] == self.body.id:
+                m = re.search(r"annotations::disease::Disease::(\w+)$", a[1])
+                if m and m.group(1) in ("name", "id", "hpo_terms"):
+                    out.add({"hpo_terms": "hpos"}.get(m.group(1), m.group(1)))
+                tg = self.prog.bodies.get(a[1])
+                # accessor of the record: which field does it return
+                if tg is not None and tg.impl_self and re.search(self.owner_rx, tg.impl_self.get("s", "")) and tg.nargs == 1:
+                    for x in Prov(self.prog).of_return(tg):
+                        if x[0] == "field" and re.search(self.owner_rx, x[1]):
+                            out.add(x[2])
+        return out
+
+    def _width_of_appended(self, op):
+        """width expression of a Vec<u8> / slice operand appended to the output"""
+        at = self.pv.of_operand(self.body, op)
+        for a in at:
+            if a[0] != "call" or a[3] != self.body.id:
+                continue
+            t = self.body.blocks[a[4]].term
+            nm = t.callee.name or ""
+            m = re.search(r"core::num::<impl (\w+)>::to_(be|le|ne)_bytes$", nm)
+            if m:
+                return C(INT_WIDTH.get(m.group(1), 0)), t.args[0]
+            tg = self.prog.bodies.get(t.callee.res) if t.callee.res else self.prog.bodies.get(getattr(t.callee, "deff", None) or "")
+            if tg is not None:
+                ret = tg.locals[0]["s"]
+                m = re.match(r"^\[u8; (\d+)(_usize)?\]$", ret)
+                if m:
+                    return C(int(m.group(1))), t.args[0]
+                if tg.name == "as_bytes" and re.search(r"HpoGroup", (tg.impl_self or {}).get("s", "")):
+                    fl = self._fields(self.pvf.of_operand(self.body, t.args[0]))
+                    return e_mul(C(4), S("|%s|" % "/".join(sorted(fl)) if fl else "|?|")), t.args[0]
+        return None, None
+
+    def _collect(self):
+        b = self.body
+        from engines import for_loops, adaptor_chain
+        loops = for_loops(b)
+        sites = []
+        for bi, t in b.calls():
+            if t.callee.method in ("push", "append", "extend", "extend_from_slice") and len(t.args) == 2 and self._is_out_ref(t.args[0]):
+                sites.append((bi, t))
+        order = sorted(sites, key=lambda x: x[0])
+        # dominance order == block order is not guaranteed: sort by dominance, fall back to block index
+        def before(a, c):
+            return b.dominates(a[0], c[0])
+        ret_bb = b.exits[0] if b.exits else None
+        # first pass: find the name-length local: the value of a 1-byte push that is a cast of a local with several definitions, or a take() count
+        for bi, t in order:
+            lp = [l for l in loops if bi in l["blocks"]]
+            if lp:
+                for cb, ct in b.calls():
+                    if ct.callee.method == "take" and ct.callee.trait == "std::iter::Iterator" and len(ct.args) == 2 and ct.args[1].place is not None:
+                        from engines import source_local
+                        self.len_local = source_local(b, ct.args[1], self.pv)
+        for bi, t in order:
+            seg = {"line": t.line, "bb": bi, "cond": ret_bb is not None and not b.dominates(bi, ret_bb)}
+            lp = [l for l in loops if bi in l["blocks"]]
+            if t.callee.method == "push":
+                w = C(1)
+                val = t.args[1]
+            else:
+                w, val = self._width_of_appended(t.args[1])
+                if w is None:
+                    self.problems.append("width of the bytes appended at line %s not recognised" % t.line)
+                    w = ("u", "appended width")
+            if lp:
+                cnt = None
+                for cb, ct in b.calls():
+                    if ct.callee.method == "take" and ct.callee.trait == "std::iter::Iterator" and len(ct.args) == 2:
+                        # the take() whose result reaches this loop's iterator
+                        if any(a[0] == "call" and a[3] == b.id and a[4] == cb for a in self.pv.of_operand(b, lp[0]["iter"])):
+                            cnt = self.ex.operand(b, ct.args[1], 0, (cb, len(b.blocks[cb].stmts)))
+                if cnt is None:
+                    fl = self._fields(self.pvf.of_operand(b, lp[0]["iter"]))
+                    chain = adaptor_chain(b, self.pv, lp[0]["iter"])
+                    if fl and not [m for m in chain if m in ("skip", "step_by", "filter", "take_while", "skip_while", "filter_map", "chunks", "windows")]:
+                        cnt = S("|%s|" % "/".join(sorted(fl)))
+                    else:
+                        cnt = ("u", "loop count")
+                w = e_mul(w, cnt)
+                seg["cond"] = False
+                seg["loop"] = True
+            seg["width"] = w
+            seg["value"] = self.ex.operand(b, val, 0, (bi, len(b.blocks[bi].stmts))) if val is not None and not lp else None
+            seg["fields"] = self._fields(self.pvf.of_operand(b, val)) if val is not None else set()
+            self.segments.append(seg)
+        # conditional pushes of equal width in sibling branches count once (if / else)
+        merged = []
+        i = 0
+        while i < len(self.segments):
+            sgm = self.segments[i]
+            if sgm["cond"] and i + 1 < len(self.segments) and self.segments[i + 1]["cond"] and affine(sgm["width"]) == affine(self.segments[i + 1]["width"]) \
+                    and not b.dominates(sgm["bb"], self.segments[i + 1]["bb"]) and not b.dominates(self.segments[i + 1]["bb"], sgm["bb"]):
+                m = dict(sgm)
+                m["cond"] = False
+                m["fields"] = sgm["fields"] | self.segments[i + 1]["fields"] | self._branch_fields(sgm["bb"])
+                m["value"] = None
+                merged.append(m)
+                i += 2
+            else:
+                if sgm["cond"]:
+                    self.problems.append("conditional append at line %s" % sgm["line"])
+                merged.append(sgm)
+                i += 1
+        self.segments = merged
+        # offsets
+        off = C(0)
+        for sgm in self.segments:
+            sgm["lo"] = affine(off)
+            off = e_add(off, sgm["width"])
+            sgm["hi"] = affine(off)
+        self.total = affine(off)
+
+    def _branch_fields(self, bb):
+        """record fields tested by the switch that selects between two sibling pushes"""
+        b = self.body
+        out = set()
+        for sb in sorted(b.reach):
+            x = b.blocks[sb].term
+            if x.k == "switch" and bb in b.succ[sb]:
+                out |= self._fields(self.pvf.of_operand(b, x.discr))
+        return out
+
+
+# ------------------------------------------------------------------------------------------------ writer vs reader
+
+def _afmt(a):
+    if a is None:
+        return "?"
+    if a == "end":
+        return "end"
+    parts = []
+    for k in sorted(a, key=str):
+        c = a[k]
+        if k == ():
+            parts.append(str(c))
+        else:
+            parts.append(("%s*%s" % (c, k)) if c != 1 else str(k))
+    return " + ".join(parts) if parts else "0"
+
+
+def _rename(a, m):
+    """rename the symbols of an affine form; None if a symbol has no image"""
+    if a is None or a == "end":
+        return a
+    out = {}
+    for k, c in a.items():
+        if k == ():
+            out[()] = out.get((), 0) + c
+        elif k in m:
+            out[m[k]] = out.get(m[k], 0) + c
+        else:
+            return None
+    return {k: v for k, v in out.items() if v != 0 or k == ()}
+
+
+def _norm(a):
+    if a is None or a == "end":
+        return a
+    return {k: v for k, v in a.items() if v != 0}
+
+
+def check_record_layout(ck, rule, prog, wbody, rbody, owner_rx, label, reader_input=1):
+    """the byte offsets the decoder reads are field boundaries of the layout the encoder writes; the declared lengths agree with
+    what is emitted; the decoder's length validations are the encoder's total size"""
+    W = Writer(prog, wbody, owner_rx)
+    R = Reader(prog, rbody, reader_input)
+    if W.problems or not W.segments or any(s["lo"] is None or s["hi"] is None for s in W.segments):
+        ck.undecided(rule, "%s/writer" % label, "layout written by %s not recognised (%s)" % (wbody.short, "; ".join(W.problems) or "a segment width is not affine"), where=wbody.where())
+        return 0
+    n = 0
+    segs = W.segments
+    # ---- writer: declared total size == bytes emitted
+    s0 = segs[0]
+    if s0["value"] is not None and affine(s0["value"]) is not None:
+        ok = _norm(affine(s0["value"])) == _norm(W.total)
+        ck.ob(rule, "%s/declared-size" % label, ok, "%s declares a record size of %s and emits %s bytes" % (wbody.short, _afmt(_norm(affine(s0["value"]))), _afmt(_norm(W.total))), where=wbody.where(s0["line"]))
+        n += 1
+    else:
+        ck.undecided(rule, "%s/declared-size" % label, "the value written as record size is not an affine expression of the field lengths", where=wbody.where(s0["line"]))
+    # ---- writer: a declared length field is followed by exactly that many bytes
+    for i, sg in enumerate(segs[:-1]):
+        v = affine(sg["value"]) if sg["value"] is not None else None
+        nxt = segs[i + 1]
+        if v is not None and len([k for k in v if k != ()]) == 1 and v.get((), 0) == 0:
+            sym = [k for k in v if k != ()][0]
+            w = _norm(affine(nxt["width"]))
+            if w is not None and set(w) == {sym}:
+                per = w[sym] / v[sym]
+                ck.ob(rule, "%s/declared-length/%s" % (label, "/".join(sorted(sg["fields"])) or str(i)), per in (1, 4), "%s writes the length %s and then %s bytes (%s per element)" % (wbody.short, _afmt(v), _afmt(w), per), where=wbody.where(nxt["line"]))
+                n += 1
+            elif w is not None and nxt.get("loop"):
+                ck.ob(rule, "%s/declared-length/%s" % (label, "/".join(sorted(sg["fields"])) or str(i)), False, "%s writes the length %s but then emits %s bytes: the declared length and the bytes that follow disagree" % (wbody.short, _afmt(v), _afmt(w)), where=wbody.where(nxt["line"]))
+                n += 1
+    # evaluate the length validations first: doing so registers the symbols of the decoded length fields they mention
+    guards_pre = []
+    for sb in sorted(rbody.reach):
+        x = rbody.blocks[sb].term
+        if x.k != "switch" or x.discr.place is None:
+            continue
+        for kind, dpos, d in R.pv.defs(rbody).get(x.discr.place.local, []):
+            if kind == "assign" and d.rv["k"] == "bin" and d.rv["op"] in ("Lt", "Le", "Gt", "Ge", "Eq", "Ne"):
+                guards_pre.append((d, R.ex.operand(rbody, d.rv["l"], 0, dpos), R.ex.operand(rbody, d.rv["r"], 0, dpos)))
+    # ---- reader symbols -> writer symbols, by the offset they are read at
+    rename = {}
+    for name, offs in sorted(R.sym_bytes.items(), key=lambda kv: (len([k for k in kv[1][0] if k != ()]), str(kv[1][0].get((), 0)))):
+        lo = _rename(offs[0], rename)
+        if lo is None:
+            continue
+        for sg in segs:
+            if _norm(sg["lo"]) == _norm(lo) and sg["value"] is not None:
+                v = affine(sg["value"])
+                if v is not None and len(v) == 1 and () not in v and list(v.values())[0] == 1 and _norm(affine(sg["width"])) == {(): len(offs)}:
+                    rename[name] = list(v.keys())[0]
+    bounds_lo = [_norm(s["lo"]) for s in segs]
+    bounds_hi = [_norm(s["hi"]) for s in segs]
+    # ---- every access outside loops starts and ends on a field boundary
+    for pos, acc in sorted(R.accesses.items()):
+        if acc["loop"]:
+            continue
+        lo = _norm(_rename(acc["lo"], rename))
+        hi = acc["hi"] if acc["hi"] == "end" else _norm(_rename(acc["hi"], rename))
+        if lo is None or hi is None:
+            ck.undecided(rule, "%s/read@%s" % (label, acc["line"]), "offset %s of a read in %s is not affine in the decoded length fields" % (acc.get("lo_s", "?"), rbody.short), where=rbody.where(acc["line"]))
+            continue
+        n += 1
+        ok_lo = lo in bounds_lo
+        ok_hi = hi == "end" or hi in bounds_hi or (acc["kind"] == "one" and any(_inside(lo, bl, bh) for bl, bh in zip(bounds_lo, bounds_hi)))
+        if acc["kind"] == "one":
+            ok_lo = any(_inside(lo, bl, bh) for bl, bh in zip(bounds_lo, bounds_hi))
+        key = "%s/read/%s" % (label, _afmt(_norm(acc["lo"])).replace(" ", ""))
+        ck.ob(rule, key, ok_lo and ok_hi, "%s reads [%s, %s) - %s" % (rbody.short, _afmt(lo), _afmt(hi), "a field of the layout %s writes" % wbody.short if ok_lo and ok_hi else "NOT aligned with the fields %s writes (%s)" % (wbody.short, ", ".join("[%s,%s)" % (_afmt(a), _afmt(b)) for a, b in zip(bounds_lo, bounds_hi)))), where=rbody.where(acc["line"]))
+    # ---- length validations
+    total = _norm(W.total)
+    for d, l, r in guards_pre:
+        if True:
+            other = None
+            if l == S("LEN"):
+                other = r
+            elif r == S("LEN"):
+                other = l
+            if other is None:
+                continue
+            a = _norm(_rename(affine(other), rename)) if affine(other) is not None else None
+            if a is None:
+                continue
+            if any(k not in total and k != () for k in a):
+                continue  # compared with a decoded total-length field: not a layout constant
+            n += 1
+            cands = _zeroings(total)
+            ck.ob(rule, "%s/length-check/%s" % (label, _afmt(a).replace(" ", "")), a in cands, "%s validates the input length against %s; the record %s writes has %s bytes%s" % (rbody.short, _afmt(a), wbody.short, _afmt(total), "" if a in cands else " (no choice of empty variable parts gives that bound)"), where=rbody.where(d.line))
+    return n
+
+
+def _inside(x, lo, hi):
+    """x in [lo, hi) for affine forms that differ from lo by a constant"""
+    if x is None or lo is None or hi is None:
+        return False
+    d = {k: x.get(k, 0) - lo.get(k, 0) for k in set(x) | set(lo)}
+    d = {k: v for k, v in d.items() if v != 0}
+    if any(k != () for k in d):
+        return False
+    off = d.get((), 0)
+    w = {k: hi.get(k, 0) - lo.get(k, 0) for k in set(hi) | set(lo)}
+    w = {k: v for k, v in w.items() if v != 0}
+    if any(k != () for k in w):
+        return off == 0 or (off >= 0 and all(v > 0 for v in w.values()) and False)
+    return 0 <= off < w.get((), 0)
+
+
+def _zeroings(total):
+    syms = [k for k in total if k != ()]
+    out = []
+    for mask in range(1 << len(syms)):
+        a = {(): total.get((), 0)}
+        for i, sname in enumerate(syms):
+            if not (mask >> i) & 1:
+                a[sname] = total[sname]
+        out.append({k: v for k, v in a.items() if v != 0})
+    return out
